@@ -4033,11 +4033,11 @@ def iter_parts(partlist):
 
     """
 
-    if not isinstance(partlist, (list, tuple, set)):
-        _partlist = [partlist]
-
-    elif isinstance(partlist, Score):
+    if isinstance(partlist, Score):
         _partlist = partlist.parts
+
+    elif not isinstance(partlist, (list, tuple, set)):
+        _partlist = [partlist]
 
     else:
         _partlist = partlist
